@@ -23,7 +23,11 @@ BOUNDS = {
              'waiting messages, flush() at a symbolic instant, then a '
              'transient failure and a later retry; dict and redis-over-fake '
              'backends, unbounded pools (bounded relay pool in one cell)',
-    'thorough': '3 messages, 3 failures each, disk and cloud backends too',
+    'thorough': 'retry: 2 messages x 1 failure, 1 message x 3 failures and '
+                'the bounded relay pool on all four backends, 2 messages x 2 '
+                'failures on dict and redis (about 6e5 paths each, split '
+                'over 32 processes by decision prefix); load / flush on all '
+                'backends; injected announcements at 80 yield points',
 }
 OUTSIDE = 'bounded store pools together with a wait()-capable storage; ' \
           'more messages / events'
@@ -60,7 +64,7 @@ def cells(tier):
         out.append({'kind': 'flush', 'backend': 'redis', 'msgs': 1})
     else:
         for b in ('dict', 'disk', 'redis', 'cloud'):
-            out.append({'kind': 'retry', 'backend': b, 'msgs': 2, 'fails': 2})
+            out.append({'kind': 'retry', 'backend': b, 'msgs': 2, 'fails': 1})
             out.append({'kind': 'retry', 'backend': b, 'msgs': 1, 'fails': 3})
             out.append({'kind': 'retry', 'backend': b, 'msgs': 2, 'fails': 1,
                         'relay_pool': 1})
@@ -70,7 +74,10 @@ def cells(tier):
             out.append({'kind': 'flush', 'backend': b, 'msgs': 2})
             if b != 'dict':
                 out.append({'kind': 'inject', 'backend': b, 'K': 80})
-        out.append({'kind': 'retry', 'backend': 'dict', 'msgs': 3, 'fails': 1})
+        # ~6e5 paths each: split over 32 processes by decision prefix
+        for b in ('dict', 'redis'):
+            out = api.shards({'kind': 'retry', 'backend': b, 'msgs': 2,
+                              'fails': 2}, 32, 12) + out
     return out
 
 
